@@ -20,7 +20,8 @@ CHECK = {'level': 'exploration',
            {'name': 'race', 'pkg': 'db', 'race': True, 'run': '^TestVerif_C17_Race$', 'timeout_q': 400, 'timeout_t': 2400},
            {'name': 'push', 'pkg': 'rest', 'run': '^TestVerif_C17_Push$', 'timeout_q': 600, 'timeout_t': 2400, 'env': {'SG_TEST_BUCKET_POOL_SIZE': '8'}}],
  'min_evals': 1000000,
- 'min_counters': {'exhaustive.interleavings': 1000000,
+ 'min_counters': {'push.checkpoint_values_judged': 3,
+                  'exhaustive.interleavings': 1000000,
                   'exhaustive.ticks_checked': 1000000,
                   'exhaustive.compactions': 100000,
                   'exhaustive.graph_states': 500000,
@@ -43,7 +44,8 @@ CHECK = {'level': 'exploration',
  'race_state': ['c.expectedSeqs', 'c.processedSeqs', 'c.lastCheckpointSeq', 'c.idAndRevLookup', 'c.stats', 'c.stats.ProcessedSequenceCount',
                 'c.stats.ExpectedSequenceCount', 'c.stats.AlreadyKnownSequenceCount', 'c.stats.SetCheckpointCount', 'c.lastLocalCheckpointRevID',
                 'c.lastRemoteCheckpointRevID'],
- 'assumptions': ['notifications are protocol-conformant: announcements reach the checkpointer in feed order (non-decreasing under SequenceID.Before), each '
+ 'assumptions': ['push part: two real gateways over loopback, passive store slowed by 30-80 ms per pushed document, checkpoint interval 2 ms, the window between the two checkpointer notifications of a changes response widened by 25 ms through hook H2 (verifPoint); every value reaching the active side\'s checkpoint document is judged when it is written',
+                 'notifications are protocol-conformant: announcements reach the checkpointer in feed order (non-decreasing under SequenceID.Before), each '
                  'position is announced once, completions arrive in any order (also before their announcement, as in push)',
                  'the order in which the real callers deliver the notifications of one changes batch (push: already-known before expected) is outside this '
                  'premise; it is measured by a non-deciding probe only (counters exhaustive.probe_batchsplit_*)',
